@@ -484,4 +484,3 @@ func (it *stringIter) next() tuple {
 	it.i += n
 	return okv
 }
-
